@@ -10,7 +10,7 @@
 #include "mv_prog.h"
 #include <string.h>
 using namespace photon;
-static const uint64_t TMO = 40;
+static const uint64_t TMO = 40, LONG = 1000000;
 
 struct St {
     bool use_mutex; mutex m{2}; spinlock s; condition_variable cv;
@@ -18,6 +18,7 @@ struct St {
     mvprog::Prog prog;
     // oracle state, all updated while holding the user lock
     bool begun[16] = {false}, returned[16] = {false}, owed_all[16] = {false}, timed[16] = {false};
+    int never_woken = 0;
     int ret[16]; int owed_one = 0; std::string log; bool woken[16] = {false};
 };
 static St* G;
@@ -54,8 +55,20 @@ static void body(mvprog::PT& p) {
                 G->begun[me] = true; G->timed[me] = (op == 'T');
                 if (op == 'T') mv_register_deadline(mv_now() + TMO);
                 errno = 0;
-                r = WAIT(op == 'T' ? Timeout(TMO) : Timeout());
+                // the "untimed" single-shot waiter waits 1 s of virtual time: a legitimately missed notification then ends the run
+                // cleanly (same verdict as "blocked forever", but the process can be reused for the next execution)
+                r = WAIT(op == 'T' ? Timeout(TMO) : Timeout(LONG));
                 e = errno;
+                if (op == 'W' && r != 0 && e == ETIMEDOUT && mv_now() >= t0 + LONG) {
+                    // == blocked forever: must not have been owed a notification
+                    if (G->owed_all[me]) pmc_violation("lost-notification", "waiter %d began waiting before a notify_all notifier took the lock, yet it was never woken", me);
+                    G->never_woken++;
+                    G->log += char('a' + me); G->log += 'X'; p.result += "X";
+                    G->begun[me] = false;          // not counted as a notified waiter
+                    if (!HELD()) pmc_violation("wait-returned-without-lock", "wait() timed out for thread %d but the lock is not held", me);
+                    UNLOCK();
+                    continue;
+                }
                 G->returned[me] = true;
             }
             if (!HELD()) pmc_violation("wait-returned-without-lock", "wait() returned %d to thread %d but the lock is not held", r, me);
@@ -98,8 +111,8 @@ static void final_oracle(const char* when, const char* dump) {
         }
         if (G->begun[k] && G->returned[k] && !G->timed[k] && !G->owed_all[k] && G->ret[k] == 0) ok0++;
     }
-    if (G->owed_one > ok0) pmc_violation("lost-notification", "%s: %d notify_one() found a waiter waiting but only %d such waiter(s) returned; %d still blocked. %s", when, G->owed_one, ok0, blocked, dump);
-    pmc_obs("%s %s blocked=%d", G->prog.results().c_str(), G->log.c_str(), blocked);
+    if (G->owed_one > ok0) pmc_violation("lost-notification", "%s: %d notify_one() found a waiter waiting but only %d such waiter(s) returned; %d blocked, %d never woken. %s", when, G->owed_one, ok0, blocked, G->never_woken, dump);
+    pmc_obs("%s %s blocked=%d", G->prog.results().c_str(), G->log.c_str(), blocked + G->never_woken);
 }
 static void on_deadlock(const char* dump) {
     for (auto& p : G->prog.pts) if (!p.done && !(G->begun[p.idx] && !G->returned[p.idx])) pmc_violation("deadlock", "thread %d stuck outside cv.wait: %s", p.idx, dump);
